@@ -36,20 +36,41 @@ func storedSharesAreAggregated(p *Prog, c *Check, rule string) {
 	}
 	n := 0
 	for _, f := range storers {
-		// the entry points through which f is reached inside its package (f itself when nothing calls it statically)
-		entries := []*ssa.Function{f}
-		for _, cs := range p.CG().Callers(f) {
-			if isTestScaffold(cs.Caller) || cs.Instr.Common().IsInvoke() || fnPkgPath(cs.Caller) != fnPkgPath(f) {
-				continue
+		// the entry points through which f is reached inside its package: climb the static callers of
+		// the package until a function nothing in the package calls (f itself when nothing calls it)
+		var entries []*ssa.Function
+		seenE := map[*ssa.Function]bool{}
+		var climb func(g *ssa.Function, depth int)
+		climb = func(g *ssa.Function, depth int) {
+			if seenE[g] {
+				return
 			}
-			e := origin(cs.Caller)
-			for e.Parent() != nil {
-				e = e.Parent()
+			seenE[g] = true
+			up := 0
+			if depth < 4 {
+				for _, cs := range p.CG().Callers(g) {
+					if isTestScaffold(cs.Caller) || cs.Instr.Common().IsInvoke() || fnPkgPath(cs.Caller) != fnPkgPath(g) {
+						continue
+					}
+					e := origin(cs.Caller)
+					for e.Parent() != nil {
+						e = e.Parent()
+					}
+					if e == g {
+						continue
+					}
+					up++
+					climb(e, depth+1)
+				}
 			}
-			entries = []*ssa.Function{e}
+			if up == 0 {
+				entries = append(entries, g)
+			}
 		}
+		climb(f, 0)
+		n++
+		bad := ""
 		for _, e := range entries {
-			n++
 			c.Analysed(shortFn(e))
 			agg := false
 			for _, g := range p.CG().Reachable([]*ssa.Function{e}, func(h *ssa.Function) bool { return !inModule(h) || isGeneratedFile(p.fileOf(h)) }) {
@@ -57,8 +78,11 @@ func storedSharesAreAggregated(p *Prog, c *Check, rule string) {
 					agg = true
 				}
 			}
-			c.Result(agg, rule, "stores-shares@"+shortFn(e), p.Rel(e.Pos()), shortFn(e), "key shares stored by "+shortFn(f), "key shares are stored on this path without an aggregation attempt afterwards: when the stored share is the one that completes the threshold, the key is not derived (only the handling of another keyper's later share message aggregates)", "reaches the aggregation of the stored shares")
+			if !agg {
+				bad = shortFn(e)
+			}
 		}
+		c.Result(bad == "", rule, "stores-shares@"+shortFn(f), p.Rel(f.Pos()), shortFn(f), "key shares stored by "+shortFn(f), "key shares are stored on a path (entered through "+bad+") that makes no aggregation attempt afterwards: when the stored share is the one that completes the threshold, the key is not derived (only the handling of another keyper's later share message aggregates)", "every entry that reaches the store also reaches the aggregation of the stored shares")
 	}
 	c.Floor(rule, n, 2)
 }
@@ -165,6 +189,13 @@ func repeatedVoteIsSeen(p *Prog, c *Check, rule string) {
 			}
 			n++
 			c.Analysed(shortFn(fn))
+			// which vote: the voting the vote is added to (stable under moving the code between functions)
+			which := "vote"
+			rt := stripAddr(fi.T(call.Common().Args[0]))
+			if rt != nil && rt.K == TField {
+				which = rt.Name
+			}
+			respType := fn.Signature.Results().Len() == 1 && strings.HasSuffix(fn.Signature.Results().At(0).Type().String(), "types.ResponseDeliverTx")
 			// returns on the failure edge of this call
 			found := false
 			okAll := true
@@ -180,12 +211,12 @@ func repeatedVoteIsSeen(p *Prog, c *Check, rule string) {
 					continue
 				}
 				found = true
-				if !isSeenResponse(p, fi, r.Results[0], 0) {
+				if !respType || !isSeenResponse(p, fi, r.Results[0], 0) {
 					okAll = false
 					site = p.siteOf(call) + " → " + p.siteOf(r)
 				}
 			}
-			c.Result(found && okAll, rule, "AddVote-repeated@"+shortFn(fn), site, shortFn(fn), "answer to a vote the sender already cast", "a repeated vote is answered with an error instead of the Seen code: the keyper that re-sends an already accepted vote (crash or timeout between the broadcast and the deletion of the outbox row) retries it forever, and every message queued behind it — block seen, DKG messages — is never sent", "makeAlreadySeenResponse")
+			c.Result(found && okAll, rule, "AddVote-repeated:"+which, site, shortFn(fn), "answer to a vote the sender already cast", "a repeated vote is answered with an error instead of the Seen code: the keyper that re-sends an already accepted vote (crash or timeout between the broadcast and the deletion of the outbox row) retries it forever, and every message queued behind it — block seen, DKG messages — is never sent", "makeAlreadySeenResponse")
 		}
 	}
 	c.Floor(rule, n, 2)
@@ -313,4 +344,48 @@ func isSeenResponse(p *Prog, fi *FnInfo, v ssa.Value, depth int) bool {
 		return true
 	}
 	return false
+}
+
+// ---------------------------------------------------------------- C19-R9: the gas bound is the only bound
+
+// queueLimitFromMinGas: the identities of a slot are the queue prefix bounded by gas. The queue query
+// also carries a row limit; when that limit is computed from a minimum gas per transaction, it is
+// harmless only if no queued transaction can be below that minimum — i.e. if the syncer that fills the
+// queue enforces it. Otherwise cheap transactions are cut off by the row limit before the gas bound.
+func queueLimitFromMinGas(p *Prog, c *Check, rule string) {
+	n := 0
+	for _, cs := range queryCalls(p, "keyperimpl/gnosis/database", "GetTransactionSubmittedEvents") {
+		fi := p.Info(cs.Caller)
+		args := cs.Instr.Common().Args
+		fl := fi.structLitFields(args[len(args)-1])
+		if fl == nil || fl["Limit"] == nil {
+			continue
+		}
+		n++
+		c.Analysed(shortFn(cs.Caller))
+		lim := fl["Limit"]
+		fromMin := strings.Contains(lim.s, "MinGasPerTransaction")
+		if !fromMin {
+			c.Ok(rule, "queue-limit@"+shortFn(cs.Caller), p.siteOf(cs.Instr), shortFn(cs.Caller), "row limit of the queue query", "not derived from a per-transaction minimum: "+siteTag.ReplaceAllString(lim.s, ""))
+			continue
+		}
+		// does the syncer refuse transactions below the minimum?
+		enforced := false
+		if ms, err := p.methodsOf("keyperimpl/gnosis.SequencerSyncer"); err == nil {
+			for _, m := range ms {
+				mfi := p.Info(m)
+				for _, b := range m.Blocks {
+					for _, s := range b.Succs {
+						for _, a := range mfi.edgeAtoms(b, s) {
+							if strings.Contains(a.s, "GasLimit") && strings.Contains(a.s, "MinGasPerTransaction") {
+								enforced = true
+							}
+						}
+					}
+				}
+			}
+		}
+		c.Result(enforced, rule, "queue-limit@"+shortFn(cs.Caller), p.siteOf(cs.Instr), shortFn(cs.Caller), "row limit of the queue query", "the queue query is limited to EncryptedGasLimit/MinGasPerTransaction+1 rows, but nothing keeps transactions with a smaller gas limit out of the queue (the sequencer syncer does not compare the gas limit with the minimum): for such transactions the row limit cuts the list before the gas bound does, so the requested identities are not the gas-bounded prefix", "queued transactions have gas >= MinGasPerTransaction, or no row limit below the gas bound")
+	}
+	c.Floor(rule, n, 1)
 }
